@@ -8,3 +8,4 @@ import Props.C06
 import Props.C08
 import Props.C09
 import Props.C03
+import Props.C01
